@@ -92,7 +92,7 @@ def judge_result(res, driver, kind, out, cmd, result, strict, case, who, others=
     if isinstance(result, tuple) and result and result[0] == "raised":
         if result[1] == "UnsupportedFrameTypeError" and driver in ("hasseb", "daliserver") and kind in ("q24", "c24"):
             return "refused"
-        if result[1] == "TimeoutError" and driver in ("luba", "sci") and not strict:
+        if result[1] == "TimeoutError" and driver in ("luba", "sci") and not strict and case.get("__late_ok__"):
             return "timeout"
         add_violation(res, f"C16:{tag}:raised:{result[1]}", f"{driver} send({kind}) with bus outcome {out}: raised {result[1:]} ({who})", case)
         return "raised"
@@ -111,7 +111,7 @@ def judge_result(res, driver, kind, out, cmd, result, strict, case, who, others=
     if out[0] == "err" and driver in ("luba", "sci"):
         return "serial-err"
     if got != tuple(out):
-        if got == ("none",) and driver in ("luba", "sci") and not strict:
+        if got == ("none",) and driver in ("luba", "sci") and not strict and case.get("__late_ok__"):
             observe(res, "late_answer_reported_as_no_answer")
             return "late"
         if got[0] == "value" and got in others:
@@ -165,6 +165,12 @@ def judge(res, driver, spec, mode, w, obs, strict):
             case = dict(case)
             if late_before.get(i):
                 case["__late_before_start__"] = True
+            # "answer reported as no answer" is tolerated only when a gateway report really was overtaken by a
+            # timer after this caller had been started - not for any other deviation
+            lbl = f"start:c{i + 1}"
+            ts = w.trace.index(lbl) if lbl in w.trace else -1
+            if any(p > ts for p in w.late_timers):
+                case["__late_ok__"] = True
             if oc[0] == "returned":
                 outs.append(judge_result(res, driver, kind, out, cmd, oc[1], strict, case, f"caller {i + 1} of {len(spec)}", others))
             elif oc[0] == "raised":
